@@ -16,7 +16,7 @@ hsw <in|out> <magicOK> <A> <accepted codes> <M> <made: 200|33|32|31> <K> <offere
       <lgver> <lver> <lpub> <lmain> <lmagic> <lcons> <lpeer> <lgen> <cid> <height> <besthash> <genesis>
       nosender | sender <addrOK> <legacyAddrOK> <peer> <role> <P> <p1..pP> <C> (<valid> <agent> <bp>)*C
 sm new <cap>
-sm bp <id> <present> <lenOK> <senderOK> <sizeOK>
+sm bp <id> <present> <lenOK> <senderOK> <sizeOK> <content token>
 sm nb <id> <lenOK> <peerSeen> <chainHas>
 sm gbr <statusOK> <N> (<id> <sizeOK>)*N
 bhash <carried> <digest>
@@ -216,8 +216,8 @@ def showAct : Act → String
 
 open Aergo.Notice in
 def parseArr : List String → Option Arr
-  | ["bp", id, p, l, s, z] => do
-    pure (.bp (← unhex id) (← parseBool p) (← parseBool l) (← parseBool s) (← parseBool z))
+  | ["bp", id, p, l, s, z, c] => do
+    pure (.bp (← unhex id) (← parseBool p) (← parseBool l) (← parseBool s) (← parseBool z) (← unhex c))
   | ["nb", id, l, p, c] => do
     pure (.nb (← unhex id) (← parseBool l) (← parseBool p) (← parseBool c))
   | "gbr" :: ok :: n :: rest => do
